@@ -32,7 +32,7 @@ def parse(body):
         if c in _ILLEGAL:
             raise ValueError('raw line terminator U+%04X inside the string '
                              'literal' % ord(c))
-        if c in ' ':
+        if c in '\u2028\u2029':
             legacy_terminators += 1
         if c != '\\':
             out.append(c)
@@ -67,7 +67,7 @@ def parse(body):
         elif e == '0' and not body[i + 1:i + 2].isdigit():
             out.append('\0')
             i += 1
-        elif e in '\n\r  ':
+        elif e in '\n\r\u2028\u2029':
             # line continuation: contributes nothing
             if e == '\r' and body[i + 1:i + 2] == '\n':
                 i += 1
